@@ -178,31 +178,47 @@ def decoder_inputs(ctx, facts, cfg):
     ctx.floor(R, 2, n, 'dedicated decoders', cfg=cfg)
 
 
-def begin_payload(facts, RL, db):
-    """what decode_begin hands out on the Some path: ('tuple', [roles per position]) or ('struct', {field: roles})"""
-    somes = []
-
-    def visit(e, conds, env):
-        if e.get('k') == 'call' and e['f'].get('k') == 'path' and (e['f'].get('path') or '').endswith('::Some'):
-            somes.append((e, conds, dict(env)))
-    core.PathWalker(visit).walk_fn(db)
+def ok_payloads(db):
+    """[(inner expr node of an Ok(..) exit of decode_begin, conds, env)]"""
     out = []
-    for (e, conds, env) in somes:
-        a = core.strip_refs(e['args'][0])
-        if a.get('k') == 'tup':
-            items = [(None, x) for x in a['xs']]
-            kind = 'tuple'
-        elif a.get('k') == 'struct':
-            items = [(f['name'], f['e']) for f in a['fields']]
-            kind = 'struct'
-        else:
+    for (x, conds, env) in core.fn_exits(db):
+        x0 = core.strip_refs(x)
+        if x0.get('k') == 'call' and x0['f'].get('k') == 'path' and (x0['f'].get('path') or '').endswith('::Ok') and len(x0['args']) == 1:
+            out.append((core.strip_refs(x0['args'][0]), conds, env))
+    return out
+
+
+def payload_items(a):
+    """(kind, [(field name | None, expr)]) of a value that carries several things: Some((..)), Some(S {..}), a struct or
+    struct-like enum variant literal, a tuple-like variant / tuple struct constructor call; None if it carries nothing"""
+    a = core.strip_refs(a)
+    if a.get('k') == 'call' and a['f'].get('k') == 'path' and (a['f'].get('path') or '').endswith('::Some') and len(a['args']) == 1:
+        return payload_items(a['args'][0]) or ('tuple', [(None, a['args'][0])])
+    if a.get('k') == 'tup':
+        return ('tuple', [(None, x) for x in a['xs']])
+    if a.get('k') == 'struct':
+        return ('struct', [(f['name'], f['e']) for f in a['fields']])
+    if a.get('k') == 'call' and a['f'].get('k') == 'path' and a['f'].get('res') != 'local' and a.get('args'):
+        return ('tuple', [(None, x) for x in a['args']])
+    return None
+
+
+def begin_payload(facts, RL, db):
+    """what decode_begin hands out on its payload-carrying Ok exits: [('tuple' | 'struct', [(name, [roles])], node)]"""
+    out = []
+    for (a, conds, env) in ok_payloads(db):
+        pi = payload_items(a)
+        if pi is None:
             continue
+        kind, items = pi
         roles = []
         for name, x in items:
             fs = set()
             fields_of(RL.norm(hcanon(x, env), db.path), fs)
             roles.append((name, sorted(fs)))
-        out.append((kind, roles, e))
+        if not any(r for _, r in roles):
+            continue
+        out.append((kind, roles, a))
     return out
 
 
@@ -220,12 +236,13 @@ def shortcut(ctx, facts, cfg):
     db = RL.get(ctx, 'dec.begin', R, cfg)
     if db is None:
         return
-    tails = core.fn_exits(db)
     found = False
-    for (x, conds, env) in tails:
-        v = hcanon(x, env)
-        # Ok(None)
-        if v[0] == 'call' and str(v[1]).endswith('::Ok') and v[2] and v[2][0][0] == 'def' and str(v[2][0][1]).endswith('::None'):
+    for (a, conds, env) in ok_payloads(db):
+        fs = set()
+        fields_of(RL.norm(hcanon(a, env), db.path), fs)
+        if fs:
+            continue        # a payload-carrying exit
+        if True:
             atoms = [(RL.norm(c, db.path), p) for c, p in core.flatten_conds(conds, env)]
             from .c06 import cmp_atom
             cm = [cmp_atom(c, p) for c, p in atoms]
@@ -303,7 +320,7 @@ def placement(ctx, facts, cfg):
             for (m, _) in lets:
                 role_of = {}
                 if kind == 'tuple':
-                    for (tp, _) in core.hir_find(m['pat'], lambda x: x.get('k') == 'tuple' and len(x.get('pats', [])) == len(rl)):
+                    for (tp, _) in core.hir_find(m['pat'], lambda x: x.get('k') in ('tuple', 'tuplestruct') and len(x.get('pats', [])) == len(rl)):
                         for (name, r), pt in zip(rl, tp['pats']):
                             if pt.get('k') == 'bind' and len(r) == 1:
                                 role_of[r[0]] = pt['name']
